@@ -323,6 +323,12 @@ class ExecBase:
             return b if isinstance(b, SV) else SV(fresh("model"), model=b, name=name)
         if s.func_stack:
             mod = source.load_module(s.func_stack[-1].module)
+            # a def of an enclosing function (a sibling or outer helper of a nested function), innermost scope first
+            q = s.func_stack[-1].qualname.split(".")
+            for i in range(len(q) - 1, 0, -1):
+                cand = ".".join(q[:i] + [name])
+                if cand in mod.funcs and not mod.funcs[cand].node.decorator_list:
+                    return SV(fresh("fn_" + name), fn=mod.funcs[cand], name=name, closure={})
             if name in mod.funcs:
                 return SV(fresh("fn_" + name), fn=mod.funcs[name], name=name)
         if name in BUILTIN_NAMES:
